@@ -83,6 +83,11 @@ def do_run(name: str, checks: list[str], tier: str):
     rc, out = sh(f"git -C /repo apply {d / 'patch.diff'}")
     assert rc == 0, out
     res = {}
+    # evidence files are rewritten by every run: keep the ones of the unchanged tree
+    saved = {}
+    for c in checks:
+        ef = V / "evidence" / f"{c}.json"
+        saved[c] = ef.read_text() if ef.exists() else None
     try:
         for c in checks:
             rc, out = sh(f"./check {c} --tier {tier}", cwd=str(V), timeout=3600)
@@ -91,6 +96,12 @@ def do_run(name: str, checks: list[str], tier: str):
             print(f"{name} vs {c}: exit={rc} {'DETECTED' if vio and rc == 1 else 'missed'} {vio[:1]}")
     finally:
         sh("git -C /repo checkout -- . && git -C /repo clean -fdq markdown_it")
+        for c, txt in saved.items():
+            ef = V / "evidence" / f"{c}.json"
+            if txt is None:
+                ef.unlink(missing_ok=True)
+            else:
+                ef.write_text(txt)
     meta.setdefault("detection", {})
     for c, r in res.items():
         meta["detection"][c] = {"tier": tier, "detected": bool(r["violation_lines"]) and r["exit"] == 1,
